@@ -378,4 +378,33 @@ theorem groupsBounded_of_expand (gs : List Group) (lb : Nat) (hok : GroupsOk lb 
   simp only at this
   omega
 
+/-! ## the domain of the property -/
+
+/-- strictly ascending code points: what `from_mappings` hands to the subtable builders for a
+conflict-free input (sorted, deduplicated, each character once) -/
+def Ascending (m : Mapping) : Prop := m.Pairwise (fun a b => a.1 < b.1)
+
+/-- a conflict-free mapping in the property's domain: Unicode scalar range, U+FFFF excepted,
+glyph ids non-zero and 16 bit -/
+structure InDomain (m : Mapping) : Prop where
+  asc : Ascending m
+  cp : ∀ p ∈ m, p.1 ≤ 0x10FFFF ∧ p.1 ≠ 0xFFFF
+  gid : ∀ p ∈ m, 1 ≤ p.2 ∧ p.2 ≤ 0xFFFF
+
+theorem Ascending.ascFrom : ∀ (m : Mapping) (lb : Nat), Ascending m → (∀ p ∈ m, lb ≤ p.1) → AscFrom lb m := by
+  intro m
+  induction m with
+  | nil => intro _ _ _; trivial
+  | cons p rest ih =>
+    intro lb h hlb
+    have h' := List.pairwise_cons.1 h
+    exact ⟨hlb p (List.mem_cons_self ..), ih _ h'.2 (fun q hq => h'.1 q hq)⟩
+
+theorem InDomain.small {m : Mapping} (h : InDomain m) : Small m := by
+  intro p hp
+  have := h.cp p hp
+  have := h.gid p hp
+  omega
+
+
 end FontVerif.Cmap
